@@ -72,7 +72,12 @@ type SessFamily struct {
 }
 
 var sessFamilies = map[string]SessFamily{
-	"empty": {"empty", "MC_SessEmpty", []string{"C03", "C04", "C07", "C20"}},
+	"empty":   {"empty", "MC_SessEmpty", []string{"C03", "C04", "C07", "C20"}},
+	"reset":   {"reset", "MC_SessReset", []string{"C05", "C07"}},
+	"echo":    {"echo", "MC_SessEcho", []string{"C08"}},
+	"refresh": {"refresh", "MC_SessRefresh", []string{"C09"}},
+	"badfrom": {"badfrom", "MC_SessBadFrom", []string{"C06"}},
+	"badto":   {"badto", "MC_SessBadTo", []string{"C06"}},
 }
 
 type vector struct {
@@ -228,36 +233,49 @@ func validateTraces(w string, tracePath string, shards int) (recs []map[string]i
 	}
 	all := strings.Split(strings.TrimRight(string(b), "\n"), "\n")
 	lines = len(all)
-	// behaviour boundaries
+	// behaviour boundaries; shards are cut only where the shape changes (the pairwise memory of the
+	// trace specification is kept per shape)
 	var starts []int
+	lastShape := ""
+	nbeh := 0
 	for i, l := range all {
 		if strings.HasPrefix(l, `{"ev":"Reset"`) {
-			starts = append(starts, i)
+			nbeh++
+			var m struct {
+				Meta struct {
+					Shape string `json:"shape"`
+				} `json:"meta"`
+			}
+			json.Unmarshal([]byte(l), &m)
+			if m.Meta.Shape != lastShape || len(starts) == 0 {
+				starts = append(starts, i)
+				lastShape = m.Meta.Shape
+			}
 		}
 	}
 	if len(starts) == 0 {
 		return nil, false, lines, fmt.Errorf("trace has no behaviours")
 	}
-	if shards > len(starts) {
-		shards = len(starts)
-	}
-	per := (len(starts) + shards - 1) / shards
 	type shard struct {
 		from, to int // line indices [from, to)
 		file     string
 	}
 	var shs []shard
-	for s := 0; s*per < len(starts); s++ {
-		from := starts[s*per]
-		to := len(all)
-		if (s+1)*per < len(starts) {
-			to = starts[(s+1)*per]
+	target := (len(all) + shards - 1) / shards
+	from := starts[0]
+	for k := 1; k <= len(starts); k++ {
+		end := len(all)
+		if k < len(starts) {
+			end = starts[k]
 		}
-		f := filepath.Join(w, fmt.Sprintf("trace-%03d.ndjson", s))
-		if err := ioutil.WriteFile(f, []byte(strings.Join(all[from:to], "\n")+"\n"), 0o644); err != nil {
-			return nil, false, lines, err
+		if end-from >= target || k == len(starts) {
+			f := filepath.Join(w, fmt.Sprintf("trace-%03d.ndjson", len(shs)))
+			if err := ioutil.WriteFile(f, []byte(strings.Join(all[from:end], "\n")+"\n"), 0o644); err != nil {
+				return nil, false, lines, err
+			}
+			shs = append(shs, shard{from, end, f})
+			from = end
 		}
-		shs = append(shs, shard{from, to, f})
 	}
 	dir := filepath.Join(w, "tv")
 	if err := copySpec(dir); err != nil {
